@@ -305,9 +305,21 @@ def layout_stressor_docs():
                        head + f"    QWidget {{ {lay} {{ QLabel {{ }} QLabel {{ QLayout.{name}: {val} }} QLabel {{ }} }} }}\n}}\n")
 
 
+def identifier_stressor_docs():
+    """Ids (and the names derived from them: function names, enumerators, members) that start with or contain
+    non-ASCII letters, on objects that carry dynamic bindings and callbacks and are referred to by others."""
+    head = "import qmluic.QtWidgets\nQWidget {\n    QCheckBox { id: cb }\n"
+    for i, name in enumerate(["éditeur", "λabel", "Édit", "ßx", "日本", "é", "a\u0301b", "x_é", "_é", "ñ1", "Ωmega", "a日", "ǅx", "ﬁx"]):
+        for j, body in enumerate(["visible: cb.checked", "onLinkActivated: { }", "visible: cb.checked; onLinkActivated: cb.checked = true",
+                                  "font.bold: cb.checked", "text: \"c\""]):
+            yield (f"stress-id/{i}/{j}", head + f"    QLabel {{ id: {name}; {body} }}\n    QLabel {{ text: {name}.text; buddy: {name} }}\n}}\n")
+        yield (f"stress-id/{i}/root", f"import qmluic.QtWidgets\nQWidget {{\n    id: {name}\n    QCheckBox {{ id: cb }}\n    windowTitle: cb.text\n    onWindowTitleChanged: {{ }}\n}}\n")
+
+
 def stressor_docs_all():
     yield from stressor_docs()
     yield from layout_stressor_docs()
+    yield from identifier_stressor_docs()
 
 
 # ----------------------------------------------------------------- depth ladders
